@@ -29,8 +29,13 @@ CASES = [
     # thorough only
     ("advanceBlockchain", 1, "advance-2blocks-2brothers"),
     ("updateAncestorBlock", 1, "updancestor-2blocks"),
+    # legacy protocol v1 (HSM1ProtocolLedger): every error is -2
+    ("sign", 1, "v1-sign-hash"),
+    ("getPubKey", 0, "v1-getPubKey"),
 ]
 N_QUICK = 11
+V1_CASES = (13, 14)
+QUICK_CASES = list(range(N_QUICK)) + list(V1_CASES)
 
 GENERIC = {-901, -902, -903, -904, -905, -906}
 DOCUMENTED = {
@@ -124,11 +129,20 @@ def kmax():
     return _KMAX[PARTS[part()][0]]
 
 
+def case_request(i):
+    cmd, var, _ = CASES[i]
+    v1 = i in V1_CASES
+    r = valid_request(cmd, var, version=1 if v1 else 5)
+    if v1 and cmd == "sign":
+        r["message"] = r["message"]["hash"]
+    return r
+
+
 def _fault_free_exchanges(i):
     cmd, var, _ = CASES[i]
     d = _device(cmd)
-    proto, dongle, world = make_stack(d)
-    r = handle(proto, valid_request(cmd, var))
+    proto, dongle, world = make_stack(d, v1=i in V1_CASES)
+    r = handle(proto, case_request(i))
     assert r[0] == "reply" and r[1]["errorcode"] == 0, (cmd, r)
     return world.exchanges
 
@@ -145,7 +159,9 @@ _KMAX = [_fault_free_exchanges(i) for i in range(len(CASES))]
 # one partition per (case, exchange index): the fault position is concrete per partition,
 # kind / status word / opcode stay symbolic
 PARTS = [(i, k) for i in range(len(CASES)) for k in range(_KMAX[i])]
-N_PARTS_QUICK = len([p for p in PARTS if p[0] < N_QUICK])
+# partitions are ordered: quick cases first (so that the quick tier is a prefix)
+PARTS = [p for p in PARTS if p[0] in QUICK_CASES] + [p for p in PARTS if p[0] not in QUICK_CASES]
+N_PARTS_QUICK = len([p for p in PARTS if p[0] in QUICK_CASES])
 
 
 def nparts(tier):
@@ -158,6 +174,7 @@ def part_name(p):
 
 def run_case(i, k, kind, sw, op, v1=False):
     cmd, var, _ = CASES[i]
+    v1 = i in V1_CASES
     d = _device(cmd)
     proto, dongle, world = make_stack(d, v1=v1)
     st = {"apdu": None, "last_op": None, "faulted": False}
@@ -186,7 +203,7 @@ def run_case(i, k, kind, sw, op, v1=False):
             st["last"] = r
             return r
         d.handle = handle_op
-    out = handle(proto, valid_request(cmd, var, version=1 if v1 else 5))
+    out = handle(proto, case_request(i))
     return cmd, out, st, world, d
 
 
@@ -217,8 +234,11 @@ def status_at_step(kind: int, sw: int) -> bool:
         ok = out[1] == "HSM2ProtocolError" and kind == FAULT_SW and not in_device_error_range(sw)
         return ok
     code = out[1].get("errorcode")
-    # (1) documented set
-    if code not in DOCUMENTED[cmd] and code not in GENERIC:
+    # (1) documented set (legacy v1: 0 or -2)
+    if i in V1_CASES:
+        if code not in (0, -2):
+            ok = False
+    elif code not in DOCUMENTED[cmd] and code not in GENERIC:
         ok = False
     # (2) success only if the device reported success: the injected failure replaces the answer
     if cmd == "uiHeartbeat" and kind in (FAULT_WRITE, FAULT_READ) and blist(st["apdu"])[1] == 0xFF:
@@ -226,7 +246,7 @@ def status_at_step(kind: int, sw: int) -> bool:
     elif code in (0, 1):
         ok = False
     # (3) named causes
-    if kind == FAULT_SW:
+    if kind == FAULT_SW and i not in V1_CASES:
         want = named_cause_code(cmd, st["apdu"], sw)
         if want is not None and code != want:
             ok = False
@@ -250,7 +270,10 @@ def opcode_at_step(op: int) -> bool:
         return False
     code = out[1].get("errorcode")
     ok = True
-    if code not in DOCUMENTED[cmd] and code not in GENERIC:
+    if i in V1_CASES:
+        if code not in (0, -2):
+            ok = False
+    elif code not in DOCUMENTED[cmd] and code not in GENERIC:
         ok = False
     # codes 0 / 1 only if the last answer the manager saw reported total / partial success
     last = blist(st.get("last", []))
@@ -287,8 +310,11 @@ def opcode_at_step(op: int) -> bool:
     return ok
 
 
-@obligation(tier="quick", parts=lambda tier: N_QUICK if tier == "quick" else len(CASES), timeout=120,
-            part_names=[c[2] for c in CASES],
+FF_ORDER = QUICK_CASES + [i for i in range(len(CASES)) if i not in QUICK_CASES]
+
+
+@obligation(tier="quick", parts=lambda tier: len(QUICK_CASES) if tier == "quick" else len(CASES), timeout=120,
+            part_names=lambda p: CASES[FF_ORDER[p]][2],
             bounds="sanity (non-vacuity): the fault-free run of every catalogue request, executed under the symbolic "
                    "tracer, is answered 0 with the same number of exchanges as the concrete run",
             examples=[(i, dict(dummy=0)) for i in range(len(CASES))])
@@ -297,6 +323,6 @@ def fault_free(dummy: int) -> bool:
     pre: 0 <= dummy <= 1
     post: _
     """
-    i = part()
+    i = FF_ORDER[part()]
     cmd, out, st, world, d = run_case(i, 10 ** 6, FAULT_SW, 0x6A87, 0)
     return out[0] == "reply" and out[1].get("errorcode") == 0 and world.exchanges == _KMAX[i] and not world.violations
